@@ -1848,6 +1848,19 @@ func (m *repoManager) newVersion(parent dvid.UUID, note string, branchname strin
 		r.RUnlock()
 	}
 
+	// A caller-assigned UUID must not name an existing version.
+	if assign != nil {
+		if *assign == dvid.NilUUID {
+			return dvid.NilUUID, ErrInvalidUUID
+		}
+		m.idMutex.RLock()
+		_, exists := m.uuidToVersion[*assign]
+		m.idMutex.RUnlock()
+		if exists {
+			return dvid.NilUUID, ErrExistingUUID
+		}
+	}
+
 	// Add the child node.  Since it's new and unavailable, no need to lock it.
 	childUUID, childV, err := m.newUUID(assign)
 	if err != nil {
@@ -1909,6 +1922,51 @@ func (m *repoManager) merge(parents []dvid.UUID, note string, mt MergeType) (dvi
 	}
 	m.repoMutex.RUnlock()
 
+	// Validate the whole request before touching the DAG so that a refused merge leaves no trace:
+	// the merge type must be one we can perform and every parent must be a distinct, committed
+	// node of the same repo.
+	switch mt {
+	case MergeConflictFree:
+	case MergeTypeSpecificAuto:
+		return dvid.NilUUID, fmt.Errorf("the type-specific auto merge has not been implemented yet")
+	case MergeExternalData:
+		return dvid.NilUUID, fmt.Errorf("merging with external data has not been implemented yet")
+	default:
+		return dvid.NilUUID, ErrBadMergeType
+	}
+	parentNodes := make([]*nodeT, len(parents))
+	parentVersions := make([]dvid.VersionID, len(parents))
+	for i, parent := range parents {
+		for j := 0; j < i; j++ {
+			if parents[j] == parent {
+				return dvid.NilUUID, fmt.Errorf("version %s given more than once as merge parent", parent)
+			}
+		}
+		m.repoMutex.RLock()
+		pr, found := m.repos[parent]
+		m.repoMutex.RUnlock()
+		if !found || pr != r {
+			return dvid.NilUUID, ErrInvalidUUID
+		}
+		v, err := m.versionFromUUID(parent)
+		if err != nil {
+			return dvid.NilUUID, err
+		}
+		r.RLock()
+		node, found := r.dag.nodes[v]
+		r.RUnlock()
+		if !found {
+			return dvid.NilUUID, ErrInvalidVersion
+		}
+		node.RLock()
+		locked := node.locked
+		node.RUnlock()
+		if !locked {
+			return dvid.NilUUID, ErrBranchUnlockedNode
+		}
+		parentNodes[i], parentVersions[i] = node, v
+	}
+
 	// Add the child node.  Since it's new and unavailable, no need to lock it.
 	childUUID, childV, err := m.newUUID(nil)
 	if err != nil {
@@ -1926,26 +1984,9 @@ func (m *repoManager) merge(parents []dvid.UUID, note string, mt MergeType) (dvi
 	r.Unlock()
 
 	// Set up pointers with parents
-	for _, parent := range parents {
-		v, err := m.versionFromUUID(parent)
-		if err != nil {
-			return dvid.NilUUID, err
-		}
-		r.RLock()
-		node, found := r.dag.nodes[v]
-		r.RUnlock()
-		if !found {
-			return dvid.NilUUID, ErrInvalidVersion
-		}
-
+	for i, node := range parentNodes {
 		node.Lock()
-		if !node.locked {
-			node.Unlock()
-			return dvid.NilUUID, ErrBranchUnlockedNode
-		}
-
-		// Add this parent node
-		child.parents = append(child.parents, v)
+		child.parents = append(child.parents, parentVersions[i])
 		node.children = append(node.children, childV)
 		node.updated = time.Now()
 		node.Unlock()
@@ -1969,21 +2010,8 @@ func (m *repoManager) merge(parents []dvid.UUID, note string, mt MergeType) (dvi
 	//  another node-level property saying it's read-only at this time, not
 	//  for all time.  Could require separate API call to retrieve final child
 	//  UUID given an immediately returned token.
-	switch mt {
-	case MergeConflictFree:
-		// No processing needs to be done except for metadata changes.
-		// Any issues will be noted during key-value lookup while traversing the DAG.
-
-	case MergeTypeSpecificAuto:
-		return dvid.NilUUID, fmt.Errorf("the type-specific auto merge has not been implemented yet")
-		// go r.asyncMerge(parentNode1, parentNode2, child)
-
-	case MergeExternalData:
-		return dvid.NilUUID, fmt.Errorf("merging with external data has not been implemented yet")
-
-	default:
-		return dvid.NilUUID, ErrBadMergeType
-	}
+	// (Merge type was validated above; MergeConflictFree needs no processing except for metadata
+	// changes.  Any issues will be noted during key-value lookup while traversing the DAG.)
 
 	r.Lock()
 	r.updated = time.Now()
